@@ -1,9 +1,10 @@
 (** One entry point for the extracted model runner: component number, numbers in, numbers out. *)
-From Remoc Require Import Lib.Base Run.RunCodec Run.RunRobsVec Run.RunRobsDeque Run.RunRobsList Run.RunRobsMap Run.RunRobsSet Run.RunPort Run.RunBroadcast Run.RunIoChan.
+From Remoc Require Import Lib.Base Run.RunCodec Run.RunRobsVec Run.RunRobsDeque Run.RunRobsList Run.RunRobsMap Run.RunRobsSet Run.RunPort Run.RunBroadcast Run.RunIoChan Run.RunEndpoint.
 
 Definition run (comp : N) (inp : list N) : list N :=
   match comp with
   | 1 => run_port inp
+  | 7 => run_endpoint inp
   | 9 => run_codec inp
   | 131 => run_robs_vec inp
   | 132 => run_robs_deque inp
